@@ -174,6 +174,14 @@ impl<'s> Context<'s> {
         Self { vars, events }
     }
     
+    /// Verification hook (cfg `selen_verif` only): public constructor so that
+    /// `try_set_min` / `try_set_max` and the views can be driven directly.
+    #[cfg(selen_verif)]
+    #[doc(hidden)]
+    pub fn verif_new(vars: &'s mut Vars, events: &'s mut Vec<VarId>) -> Self {
+        Self::new(vars, events)
+    }
+
     #[doc(hidden)]
     /// Get access to the variables for interval context-aware operations.
     pub fn vars(&self) -> &Vars {
